@@ -121,6 +121,30 @@ Proof.
 Qed.
 Print Assumptions c18_no_block.
 
+(* Close is final whatever the underlying connection's close reports.  The Close event carries
+   the underlying outcome [ce] (CloseWithStatus of the current connection returns an error or
+   not): the state after Close is the same for both, the context is cancelled, only the value
+   handed back to the caller differs; after any history containing a Close (alone or with
+   writes in flight) the context is cancelled; and once it is cancelled no event makes a dial
+   attempt any more (so nothing is dialled after Close). *)
+Theorem c18_close_cancels_regardless : forall st s ce,
+  fst (rstep st (CloseE s ce)) = do_close st s /\ snd (rstep st (CloseE s ce)) = OClose ce /\
+  rs_cancel (fst (rstep st (CloseE s ce))) = true /\
+  (forall ws, fst (rstep st (BatchClose ws s ce)) = do_close st s).
+Proof. exact close_outcome_irrelevant. Qed.
+Print Assumptions c18_close_cancels_regardless.
+
+Theorem c18_close_final : forall c st evs,
+  rc_new c = Some st ->
+  closed_trace (combine evs (snd (rrun st evs))) = true ->
+  rs_cancel (fst (rrun st evs)) = true /\
+  forall e, n_dials (rs_net (fst (rstep (fst (rrun st evs)) e))) = n_dials (rs_net (fst (rrun st evs))).
+Proof.
+  intros c st evs H CT. pose proof (closed_cancelled c st evs H CT) as C.
+  split; [exact C | intros e; exact (no_dial_after_cancel _ e C)].
+Qed.
+Print Assumptions c18_close_final.
+
 Theorem c18_read_failure_ends_reader : forall st normal,
   Inv st -> reading st = true ->
   snd (rstep st (ReadFail normal)) = OReadFail false -> rs_rdead (fst (rstep st (ReadFail normal))) = true.
